@@ -206,7 +206,31 @@ func transcriptFor(v interface{}) *transcript {
 	if r, err := safeToInt64(v); err == nil {
 		t.addUnix(r)
 	}
+	// the default branch of cast.ToDate renders the value with ToString and reads that text as
+	// Unix seconds (a float32 prints as a different integer than its exact value)
+	if s, err := safeToString(v); err == nil {
+		if r, err := safeToInt64(s); err == nil {
+			t.addUnix(r)
+		}
+	}
 	return t
+}
+
+func safeToString(v interface{}) (s string, err error) {
+	defer func() {
+		if rec := recover(); rec != nil {
+			err = fmt.Errorf("panic")
+		}
+	}()
+	x, e := cast.ToString(v)
+	if e != nil {
+		return "", e
+	}
+	str, ok := x.(string)
+	if !ok {
+		return "", fmt.Errorf("not a string")
+	}
+	return str, nil
 }
 
 func safeToInt64(v interface{}) (r int64, err error) {
